@@ -31,7 +31,7 @@ mod verif_kani {
         core::mem::forget(config);
     }
 
-    //@harness props=C20,C12 kind=bounded fns=Configuration::should_apply_rule bound="0..=2 apply patterns x 0..=2 skip patterns (all 9 shapes), abstract match relation: one symbolic-but-fixed boolean per pattern; FilterPattern::matches stubbed" budget=300
+    //@harness props=C20,C12 kind=bounded fns=Configuration::should_apply_rule bound="0..=2 apply patterns x 0..=2 skip patterns (all 9 shapes), abstract match relation: one symbolic-but-fixed boolean per pattern; FilterPattern::matches stubbed" budget=400
     //@ desc="should_apply_rule(path) <==> (apply_to_files empty or some pattern matches) and no skip_files pattern matches, for every outcome of the match relation"
     #[kani::proof]
     #[kani::unwind(4)]
